@@ -42,6 +42,8 @@ type z =
 
 val eqb : bool -> bool -> bool
 
+val gmin : ('a1 -> 'a1 -> comparison) -> 'a1 -> 'a1 -> 'a1
+
 module Nat :
  sig
   val eqb : nat -> nat -> bool
@@ -80,15 +82,23 @@ module Coq_Pos :
 
   val sub_mask_carry : positive -> positive -> mask
 
+  val sub : positive -> positive -> positive
+
   val mul : positive -> positive -> positive
 
   val iter : ('a1 -> 'a1) -> 'a1 -> positive -> 'a1
+
+  val size_nat : positive -> nat
 
   val compare_cont : comparison -> positive -> positive -> comparison
 
   val compare : positive -> positive -> comparison
 
   val eqb : positive -> positive -> bool
+
+  val ggcdn : nat -> positive -> positive -> positive * (positive * positive)
+
+  val ggcd : positive -> positive -> positive * (positive * positive)
 
   val iter_op : ('a1 -> 'a1 -> 'a1) -> positive -> 'a1 -> 'a1
 
@@ -136,6 +146,8 @@ module Z :
 
   val compare : z -> z -> comparison
 
+  val sgn : z -> z
+
   val leb : z -> z -> bool
 
   val ltb : z -> z -> bool
@@ -158,6 +170,8 @@ module Z :
 
   val of_N : n -> z
 
+  val to_pos : z -> positive
+
   val pos_div_eucl : positive -> z -> z * z
 
   val div_eucl : z -> z -> z * z
@@ -169,7 +183,11 @@ module Z :
   val quotrem : z -> z -> z * z
 
   val quot : z -> z -> z
+
+  val ggcd : z -> z -> z * (z * z)
  end
+
+val tl : 'a1 list -> 'a1 list
 
 val nth : nat -> 'a1 list -> 'a1 -> 'a1
 
@@ -198,6 +216,26 @@ val firstn : nat -> 'a1 list -> 'a1 list
 val skipn : nat -> 'a1 list -> 'a1 list
 
 val repeat : 'a1 -> nat -> 'a1 list
+
+type q = { qnum : z; qden : positive }
+
+val inject_Z : z -> q
+
+val qcompare : q -> q -> comparison
+
+val qplus : q -> q -> q
+
+val qmult : q -> q -> q
+
+val qopp : q -> q
+
+val qminus : q -> q -> q
+
+val qinv : q -> q
+
+val qdiv : q -> q -> q
+
+val qred : q -> q
 
 val nthZ : 'a1 -> 'a1 list -> z -> 'a1
 
@@ -659,3 +697,45 @@ val blocko : z -> z -> (z * z) list -> (z * z) list
 val dt_ndo : z list -> (z * z) list -> (z * z) list
 
 val gvoronoi : arr -> z list
+
+val qabs : q -> q
+
+val qmin : q -> q -> q
+
+val qltb : q -> q -> bool
+
+val zq : z -> q
+
+val prefix_sums : z -> z list -> z list
+
+type ostate = { o_muB : q; o_muO : q; o_best : q; o_bestT : z; o_stop : bool }
+
+val otsu_step : z list -> z list -> z list -> ostate -> z -> ostate
+
+val weighted : z list -> z
+
+val otsu : z list -> z
+
+val cnt_le : z list -> z -> z
+
+val sum_le : z list -> z -> z
+
+val sigma_spec : z list -> z -> q
+
+val otsu_spec : z list -> z
+
+val cnt_gt : z list -> z -> z
+
+val sum_gt : z list -> z -> z
+
+val rc_mid : z list -> z -> q
+
+val last_nonzero : z list -> z -> z -> z
+
+val rc_loop : nat -> z list -> z -> q -> z -> q
+
+val rc : z list -> q
+
+val gbernsen_px : q -> q -> q -> q -> q -> bool
+
+val soft_threshold_px : q -> q -> q
